@@ -91,6 +91,12 @@ def rule_helper_prov_for(pid=None):
                 comp[key] = got
                 n += 1
                 want = HT.lookup(key, facts.config)
+                if want is None and key not in HT._D:
+                    # a body that did not exist on the reviewed tree (a new Container / Seq / Span impl, a new accessor): new code has no
+                    # reviewed reference; it is listed, not judged (the floor guards against reviewed bodies getting lost)
+                    r.info.setdefault("new_unjudged", []).append(key)
+                    n -= 1
+                    continue
                 ok = want is not None and sorted(want) == got
                 r.ob(ok)
                 if len(r.samples) < 4:
@@ -136,7 +142,9 @@ def rule_alloc_inv(facts):
             pv = pv or Prov(b)
             ops = [fmt_roots(pv.of_operand(a["op"])) for a in t["args"]]
             size_ops = [o for o, a in zip(ops, t["args"]) if a.get("ty", "") in ("usize", "u64", "u32")]
-            const = all(re.match(r"^const \d+_\w+$", o) for o in size_ops)
+            # a literal, or the number of sub-parsers / patterns the grammar itself holds (`self.parsers.len()`): bounded by the
+            # grammar, not by the input or by a run-time supplied count
+            const = all(re.match(r"^const \d+_\w+$", o) or re.match(r"^len\(arg1(\.\w+)+\)$", o) for o in size_ops)
             if const:
                 r.ob(True)
                 continue
@@ -232,7 +240,6 @@ CTORS = {
     "input::InputRef": {"input::InputOwn::as_ref_start", "input::InputRef::with_ctx", "input::InputRef::with_input", "input::InputRef::with_state"},
     "input::InputOwn": {"input::InputOwn::new", "input::InputOwn::new_state"},
     "input::Emitter": {"input::Emitter::new"},
-    "private::Located": {"private::Located::at"},
     "ParseResult": {"ParseResult::new"},
 }
 
@@ -346,6 +353,47 @@ def _unwrap_guarded(b, blk, t):
     return seen_any
 
 
+def _unguarded_panics(b):
+    """Number of calls into core::panicking in `b` that are NOT dominated by a branch on a `NONCONSUMPTION_IS_OK` constant."""
+    dom = mirq.dominators(b)
+    guards = set()
+    for i, bl in enumerate(b["blocks"]):
+        t = bl["term"]
+        if t["k"] != "switch":
+            continue
+        op = mirq.operand_place(t["op"])
+        vals = []
+        if "k" in t["op"]:
+            vals.append(str(t["op"]["k"].get("val", "")))
+        elif op is not None and not op["p"]:
+            for s in bl["stmts"]:
+                if s["k"] == "assign" and s["place"]["l"] == op["l"] and not s["place"]["p"]:
+                    for o in (s["rv"].get("op"), s["rv"].get("a")):
+                        if isinstance(o, dict) and "k" in o:
+                            vals.append(str(o["k"].get("val", "")))
+                        elif isinstance(o, dict):
+                            pl = mirq.operand_place(o)
+                            if pl is not None and not pl["p"]:
+                                for _, _, s2 in assigns(b):
+                                    if s2["place"]["l"] == pl["l"] and not s2["place"]["p"] and s2["rv"]["k"] == "use" and "k" in s2["rv"]["op"]:
+                                        vals.append(str(s2["rv"]["op"]["k"].get("val", "")))
+        if any("NONCONSUMPTION_IS_OK" in v for v in vals):
+            guards.add(i)
+    n = 0
+    for i, bl in enumerate(b["blocks"]):
+        t = bl["term"]
+        if t["k"] != "call":
+            continue
+        f = mirq.callee_of(t)
+        if f is None or f.get("krate") == "chumsky":
+            continue
+        p = mirq.callee_path(f)
+        if "panicking" in p or p.endswith("::panic") or f["name"] in ("panic_fmt", "panic_display", "panic_str", "begin_panic"):
+            if not (guards & dom.get(i, set())):
+                n += 1
+    return n
+
+
 def panic_sites(b):
     """Operations of body `b` that can panic by themselves: calls into core::panicking, Option/Result unwrap / expect (and the
     unchecked forms, UB instead of a panic), RefCell borrows, Index / IndexMut with something other than `..`, a few slice / Vec
@@ -399,6 +447,14 @@ def rule_panic_inv(facts):
         if b["name"] in DERIVE and b["kind"] != "Closure":
             continue
         ss = panic_sites(b)
+        if not ss:
+            continue
+        # the debug-only progress assertion of the iterable drivers (`if !A::NONCONSUMPTION_IS_OK { debug_assert!(before != cursor) }`):
+        # a panic that is reached only under a test of a child's NONCONSUMPTION_IS_OK constant.  Whether it can fire for a
+        # well-formed grammar is NONCONSUMPTION-FWD's question, for every driver, old or new; in a body that is not in the reviewed
+        # inventory it is not counted as an unreviewed way to abort a parse
+        if re.sub(r"(::\{closure#\d+\})+$", "", re.sub(r"<.*", "", b["uname"])) not in PT.PANIC_SITES and "panic" in ss:
+            ss = [x for x in ss if x != "panic"] + ["panic"] * _unguarded_panics(b)
         if not ss:
             continue
         base = re.sub(r"(::\{closure#\d+\})+$", "", re.sub(r"<.*", "", b["uname"]))
